@@ -152,6 +152,9 @@ class Env:
         e = dict(os.environ)
         e["FERRET_LIBS_PATH"] = self.libs
         e["NO_COLOR"] = "1"
+        # many compilations run side by side: a Go runtime with 16 Ps each wastes most of the machine on scheduling
+        # (checks that study scheduling set GOMAXPROCS themselves through extra_env)
+        e.setdefault("GOMAXPROCS", os.environ.get("VERIF_COMPILER_GOMAXPROCS", "2"))
         if trace:
             e["FERRET_VERIF_TRACE"] = trace
         if schedule:
@@ -189,7 +192,8 @@ class Env:
     def run_native(self, exe, args=(), timeout=10, stdin=None):
         try:
             r = subprocess.run([exe] + list(args), capture_output=True, timeout=timeout,
-                               stdin=subprocess.DEVNULL, cwd=os.path.dirname(exe))
+                               **({"input": stdin.encode()} if stdin is not None else {"stdin": subprocess.DEVNULL}),
+                               cwd=os.path.dirname(exe))
         except subprocess.TimeoutExpired as ex:
             return {"cls": "TIMEOUT", "rc": None, "out": (ex.stdout or b"").decode("utf-8", "replace"),
                     "err": (ex.stderr or b"").decode("utf-8", "replace")}
